@@ -19,7 +19,7 @@ Monitors
 Wire values are opaque non-tuple Tokens (and ints where ADD is used).
 """
 from verif.gen import kits
-from verif.gen.kits import Token, token_function
+from verif.gen.kits import Pipeline, Token, token_function
 from verif.models import fold_eval
 from verif.models.fold_eval import as_wires
 
@@ -116,8 +116,10 @@ def rand_plan(rng, dom, kinds, nsteps, tag="", max_width=8):
             # the printed name of a box does not identify it: several boxes of
             # one diagram may share a name and arity and differ in their function
             shown = name if rng.random() < .6 else "op{}{}".format(n_in, n_out)
-            step = ("box", off, n_in, n_out,
-                    token_function(name, n_out, named=rng.random() < .5), shown)
+            fn = token_function(name, n_out, named=rng.random() < .5)
+            if rng.random() < .12:
+                fn = Pipeline(fn)      # a callable object, falsy as a list
+            step = ("box", off, n_in, n_out, fn, shown)
             kinds[off:off + n_in] = ["t"] * n_out
         elif r < .58 and width >= 2:
             off = rng.randint(0, width - 2)
